@@ -160,11 +160,17 @@ def testing_helpers(repo, res):
     fn = t.func("assert_allclose_units")
     res.fn(fn)
     p = fn.params
-    ok = len(fn.body) == 1 and isinstance(fn.body[0], ast.If)
-    if ok:
-        st = fn.body[0]
-        ok = norm(st.test) == f"not allclose_units({p[0]}, {p[1]}, {p[2]}, {p[3]}, **{fn.kwarg})" and len(st.body) == 1 and is_raise_of(st.body[0], "AssertionError") and not st.orelse
-    res.check(ok, "assert_allclose_units", fn.where(), "the assertion forwards all five arguments and raises AssertionError exactly on a False verdict", rid=r3)
+    from engine.sem import summarise
+
+    verdict = f"allclose_units({p[0]}, {p[1]}, {p[2]}, {p[3]}, **{fn.kwarg})"
+    sums = summarise(fn)
+    ok = len(sums) == 2
+    for x in sums:
+        if x.kind == "raise":
+            ok &= x.has(verdict, False) and x.value.startswith("AssertionError")
+        else:
+            ok &= x.has(verdict, True) and x.kind in ("fall", "return") and (x.value in (None, "None"))
+    res.check(ok, "assert_allclose_units", fn.where(), "the assertion forwards all five arguments and raises AssertionError exactly on a False verdict", verdict, [(sorted(x.facts), x.kind) for x in sums], rid=r3)
     q = t.imports.get("allclose_units")
     res.check(q == "unyt.array.allclose_units", "assert_allclose_units:target", TST, "the assertion uses unyt.array.allclose_units", found=q, rid=r3)
     fn = t.func("assert_array_equal_units")
